@@ -42,8 +42,12 @@ func init() {
 	}})
 }
 
-func (p *c02) Shards(tier string) int             { return 16 }
-func (p *c02) CaseTimeoutSec(tier string) int     { return 240 }
+func (p *c02) Shards(tier string) int         { return 16 }
+func (p *c02) CaseTimeoutSec(tier string) int { return 90 }
+
+// HangIsViolation: a call on the engine that never returns does not return "what it would return if the calls ran one
+// after another"; a case that is still running after the watchdog, and again when run alone, is reported.
+func (p *c02) HangIsViolation() bool              { return true }
 func (p *c02) RaceCase(idx int, tier string) bool { return idx%2 == 0 }
 func (p *c02) RequiredCounters(string) []string {
 	return []string{"calls-compared", "relative-includes-checked", "porcupine-ok", "yield-hits", "big-first-parses"}
